@@ -17,11 +17,13 @@ import (
 	"bytes"
 	"encoding/json"
 	"fmt"
+	"io"
 	"os"
 	"os/exec"
 	"path/filepath"
 	"reflect"
 	"regexp"
+	"strconv"
 	"strings"
 	"sync"
 
@@ -251,6 +253,37 @@ func buildTemplateDoc(seed uint64) *document.Document {
 		}
 	}
 	d.AddHeader(document.HeaderFooterTypeDefault, "Header {{title}}")
+	if r.chance(35) {
+		// a base document as another producer writes it and Open returns it: it holds pictures of its own, one of them
+		// placed twice (one media part, two drawings with consecutive ids - more drawing ids than media parts)
+		w, h := imgDims(3)
+		if _, err := d.AddImageFromData(imageBytes("png", 3), "own.png", document.ImageFormatPNG, w, h, nil); err == nil && r.chance(70) {
+			for _, el := range d.Body.Elements {
+				p0, ok := el.(*document.Paragraph)
+				if !ok {
+					continue
+				}
+				for _, run := range p0.Runs {
+					if run.Drawing == nil || run.Drawing.Inline == nil || run.Drawing.Inline.DocPr == nil {
+						continue
+					}
+					dr, in, pr := *run.Drawing, *run.Drawing.Inline, *run.Drawing.Inline.DocPr
+					if n, err := strconv.Atoi(pr.ID); err == nil {
+						pr.ID = strconv.Itoa(n + 1)
+					}
+					in.DocPr = &pr
+					dr.Inline = &in
+					d.Body.Elements = append(d.Body.Elements, &document.Paragraph{Runs: []document.Run{{Drawing: &dr}}})
+					break
+				}
+			}
+		}
+		if data, err := d.ToBytes(); err == nil {
+			if d2, err := document.OpenFromMemory(io.NopCloser(bytes.NewReader(data))); err == nil && d2 != nil {
+				return d2
+			}
+		}
+	}
 	return d
 }
 
